@@ -304,6 +304,10 @@ def gen_elf(rng, tier):
         out.append(sweep(mbi([tag(9, body, rng=rng)])))
         body = u32(1) + u32(0x10000) + u32(0x10000) + rbytes(rng, 64)     # shndx * size overflows u32
         out.append(sweep(mbi([tag(9, body, rng=rng)])))
+        body = u32(0) + u32(0x10000) + u32(0x10000) + rbytes(rng, 64)     # ... with zero sections
+        out.append(sweep(mbi([tag(9, body, rng=rng)])))
+        body = u32(0) + u32(0xFFFFFFFF) + u32(0xFFFFFFFF)
+        out.append(sweep(mbi([tag(9, body, rng=rng)])))
     return out
 
 
@@ -388,4 +392,94 @@ def gen_elfname(rng, tier):
                     out.append("ELFNAME %d %d %d %s %s" % (es, n, shndx, hx(ents), hx(strtab)))
     for es in (0, 39, 41, 48, 63, 65):
         out.append("ELFNAME %d 1 0 %s %s" % (es, hx(rbytes(rng, 64)), hx(b"\0abc\0")))
+    return out
+
+
+# ---------------------------------------------------------------- Multiboot2 HEADER regions (multiboot2-header)
+
+HMAGIC = 0xE85250D6
+
+
+def htag(typ, flags, body, size=None, rng=None):
+    real = 8 + len(body)
+    b = u16(typ) + u16(flags) + u32(real if size is None else size) + body
+    r = (-len(b)) % 8
+    return b + (rbytes(rng, r) if rng else b"\0" * r)
+
+
+def header(tags, arch=0, length=None, end=True, fix_checksum=True, magic=HMAGIC):
+    body = b"".join(tags) + (htag(0, 0, b"") if end else b"")
+    L = 16 + len(body) if length is None else length
+    ck = (-(magic + arch + L)) % (1 << 32) if fix_checksum else 0
+    return u32(magic) + u32(arch) + u32(L) + u32(ck) + body
+
+
+H_FIXED = {0: 0, 2: 16, 3: 4, 4: 4, 5: 12, 6: 0, 7: 0, 8: 4, 9: 4, 10: 16}
+
+
+def rand_htag(rng, typ=None):
+    typ = rng.choice(list(H_FIXED.keys()) + [1, 1]) if typ is None else typ
+    fl = rng.randrange(2)
+    if typ == 1:
+        return htag(1, fl, rbytes(rng, 4 * rng.randrange(0, 6)), rng=rng)
+    body = bytearray(rbytes(rng, H_FIXED[typ]))
+    if typ == 4:
+        body[0:4] = u32(rng.randrange(2))
+    if typ == 10:
+        body[12:16] = u32(rng.randrange(3))
+    return htag(typ, fl, bytes(body), rng=rng)
+
+
+def hsweep(region):
+    return "HSWEEP " + hx(region)
+
+
+def gen_headers_wellformed(rng, n):
+    out = []
+    for typ in list(H_FIXED.keys()) + [1]:
+        if typ == 0:
+            continue
+        for _ in range(3):
+            out.append(hsweep(header([rand_htag(rng, typ)], arch=rng.choice([0, 4]))))
+        out.append(hsweep(header([rand_htag(rng, typ), rand_htag(rng, typ)])))
+    for k in range(0, 9):
+        out.append(hsweep(header([htag(1, 0, rbytes(rng, 4 * k), rng=rng)])))
+    for _ in range(n):
+        tags = [rand_htag(rng, rng.choice([1, 2, 3, 4, 5, 6, 7, 8, 9, 10])) for _ in range(rng.randrange(0, 7))]
+        out.append(hsweep(header(tags, arch=rng.choice([0, 4]))))
+    out.append(hsweep(header([])))
+    return out
+
+
+def gen_headers_adversarial(rng, n):
+    """sizes 0..beyond the region, lengths, broken end tags - enumerated fields stay in range"""
+    out = []
+    for typ in [1, 2, 3, 4, 5, 6, 7, 8, 9, 10]:
+        t = rand_htag(rng, typ)
+        occ = len(t)
+        real = struct.unpack("<I", t[4:8])[0]
+        for s in sorted(set([0, 1, 4, 7, 8, 9, 11, 12, 13, real - 1, real + 1, occ, occ + 1, occ + 8, occ + 9, 24, 0x7FFFFFFF, 0xFFFFFFFF, 0xFFFFFFF8])):
+            if s < 0:
+                continue
+            t2 = t[:4] + u32(s) + t[8:]
+            pre = [rand_htag(rng) for _ in range(rng.randrange(0, 3))]
+            post = [rand_htag(rng) for _ in range(rng.randrange(0, 3))]
+            out.append(hsweep(header(pre + [t2] + post, arch=rng.choice([0, 4]))))
+            out.append(hsweep(header([t2])))
+    for _ in range(n):
+        tags = [rand_htag(rng) for _ in range(rng.randrange(0, 5))]
+        region = bytearray(header(tags))
+        L = len(region)
+        choice = rng.randrange(4)
+        if choice == 0 and L >= 32:
+            o = 16 + rng.randrange(0, (L - 16) // 8) * 8
+            region[o + 4:o + 8] = u32(rng.choice([0, 4, 7, L, L - o + 1, 0xFFFFFFF8, rng.getrandbits(32)]))
+        elif choice == 1:
+            newl = rng.choice([0, 8, 15, 16, 17, 24, L - 8, L + 8 if False else L - 16])
+            if 0 <= newl <= L:
+                region[8:12] = u32(newl)
+                region[12:16] = u32((-(HMAGIC + struct.unpack("<I", region[4:8])[0] + newl)) % (1 << 32))
+        elif choice == 2:
+            region = bytearray(header(tags, end=False))
+        out.append(hsweep(bytes(region)))
     return out
